@@ -22,6 +22,12 @@ def sexp(t):
         return "(FunctionCall %s (%s))" % (sexp(t[1]), " ".join(sexp(a) for a in t[2]))
     if tag in ("Tuple", "List", "Set"):
         return "(%s (%s))" % (tag, " ".join(sexp(a) for a in t[1]))
+    if tag in ("ListComp", "SetComp"):
+        _, elt, var, it, conds = t
+        return "(%s ((Comprehension %s (In (Id %s) %s) (%s))))" % ("List" if tag == "ListComp" else "Set", sexp(elt), var, sexp(it), " ".join(sexp(c) for c in conds))
+    if tag == "DictComp":
+        _, k, v, var, it, conds = t
+        return "(DictComprehension %s %s (In (Id %s) %s) (%s))" % (sexp(k), sexp(v), var, sexp(it), " ".join(sexp(c) for c in conds))
     return "(%s %s)" % (tag, " ".join(sexp(c) for c in t[1:]))
 
 
@@ -63,6 +69,17 @@ def expected(t):
         return ("Call", ("Attribute", ("Name", "math"), "sqrt"), (expected(t[1]),))
     if tag in ("Tuple", "List", "Set"):
         return (tag, tuple(expected(a) for a in t[1]))
+    if tag in ("ListComp", "SetComp", "DictComp"):
+        conds = t[-1]
+        ifs = ()
+        if conds:
+            acc = expected(conds[0])
+            for c in conds[1:]:
+                acc = ("BoolOp", "And", acc, expected(c))     # each condition is one operand of the chain the printer builds
+            ifs = (acc,)
+        if tag == "DictComp":
+            return ("DictComp", expected(t[1]), expected(t[2]), t[3], expected(t[4]), ifs)
+        return (tag, expected(t[1]), t[2], expected(t[3]), ifs)
     raise ValueError(tag)
 
 
@@ -102,6 +119,12 @@ def canon(node):
         return ("List", tuple(canon(e) for e in node.elts))
     if isinstance(node, ast.Set):
         return ("Set", tuple(canon(e) for e in node.elts))
+    if isinstance(node, (ast.ListComp, ast.SetComp)) and len(node.generators) == 1 and isinstance(node.generators[0].target, ast.Name):
+        g = node.generators[0]
+        return (type(node).__name__, canon(node.elt), g.target.id, canon(g.iter), tuple(canon(i) for i in g.ifs))
+    if isinstance(node, ast.DictComp) and len(node.generators) == 1 and isinstance(node.generators[0].target, ast.Name):
+        g = node.generators[0]
+        return ("DictComp", canon(node.key), canon(node.value), g.target.id, canon(g.iter), tuple(canon(i) for i in g.ifs))
     return ("Other", ast.dump(node))
 
 
@@ -199,6 +222,30 @@ def random_tree(rng, depth):
     if r < 0.98:
         return ("Sqrt", sub())
     return (rng.choice(["Tuple", "List"]), [sub(), sub()])
+
+
+def comprehensions(rng, n):
+    """builders: element, iterable and 0-3 conditions of every expression kind; the printer joins the conditions with `and`"""
+    a, b, c, y = ("Id", "a"), ("Id", "b"), ("Id", "c"), ("Id", "y")
+    cond_forms = [("Or", a, b), ("And", a, b), ("Not", a), ("Ge", y, a), ("Eq", ("Mod", y, ("Int", "2")), ("Int", "0")), ("Ternary", a, b, c), ("Id", "a"),
+                  ("Or", ("And", a, b), c), ("Not", ("Or", a, b)), ("In", y, ("Id", "zs")), ("Is", a, b), ("AnonFun", [], a), ("FunctionCall", ("Id", "p"), [y]),
+                  ("BOr", a, b), ("Leq", a, ("Add", b, c))]
+    elts = [y, ("Add", y, a), ("Ternary", a, y, b), ("Tuple", [y, a]), ("AnonFun", [("Id", "x")], y), ("Or", y, a), ("FunctionCall", ("Id", "f"), [y])]
+    its = [("Id", "ys"), ("FunctionCall", ("Id", "g"), [a]), ("Ternary", a, ("Id", "ys"), ("Id", "zs")), ("Or", ("Id", "ys"), ("Id", "zs")), ("List", [a, b])]
+    out = []
+    # systematic: every ordered pair of condition forms, every single form, with the plain element
+    for c1 in cond_forms:
+        out.append(("ListComp", y, "y", ("Id", "ys"), [c1]))
+        for c2 in cond_forms:
+            out.append(("ListComp", y, "y", ("Id", "ys"), [c1, c2]))
+    for _ in range(n):
+        conds = [rng.choice(cond_forms) if rng.random() < 0.7 else random_tree(rng, 2) for _ in range(rng.randint(0, 3))]
+        kind = rng.choice(["ListComp", "ListComp", "SetComp", "DictComp"])
+        if kind == "DictComp":
+            out.append(("DictComp", rng.choice(elts), rng.choice(elts), "y", rng.choice(its), conds))
+        else:
+            out.append((kind, rng.choice(elts), "y", rng.choice(its), conds))
+    return out
 
 
 RBIN = {v: k for k, v in BIN.items()}
